@@ -141,6 +141,8 @@ def _opt_specs():
         "GeneticAlgorithm+g2p": (GeneticAlgorithm, dict(fitness_function=O.weighted, str_len=16,
                                                         genotype_to_phenotype=O.bits_to_pm1), True),
         "jDE": (jDE, dict(fitness_function=O.sphere, left_border=-2.0, right_border=2.0, num_variables=3), False),
+        # integer-typed objective beyond 2**53: the values (and their dtype) come back from the workers exactly as the objective returned them
+        "GeneticAlgorithm+bigint": (GeneticAlgorithm, dict(fitness_function=O.big_int, str_len=12, selection="rank"), False),
         "SHADE+g2p": (SHADE, dict(fitness_function=O.sphere, left_border=-2.0, right_border=2.0, num_variables=3,
                                   genotype_to_phenotype=O.halve), True),
     }
@@ -307,9 +309,10 @@ def run(ctx, rep):
     names = list(_opt_specs())
     if ctx.quick:
         plan = [("GeneticAlgorithm", 8, [2, -1, 13]), ("DifferentialEvolution", 10, [3, 10, -2]),
-                ("GeneticAlgorithm+g2p", 9, [2, 14, -1]), ("SHADE+g2p", 11, [2, 3])]      # a greedy-family optimizer with a phenotype map too
+                ("GeneticAlgorithm+g2p", 9, [2, 14, -1]), ("SHADE+g2p", 11, [2, 3]),      # a greedy-family optimizer with a phenotype map too
+                ("GeneticAlgorithm+bigint", 8, [2, 3])]
     else:
-        plan = [(nm, pop, LIVE_N_JOBS(pop)) for nm, pop in zip(names, (8, 10, 9, 12, 11))]
+        plan = [(nm, pop, LIVE_N_JOBS(pop)) for nm, pop in zip(names, (8, 10, 9, 12, 8, 11))]
     tot_b = perm_b = 0
     for pi, (name, pop, njs) in enumerate(plan):
         seed = ctx.rng.randrange(1, 1 << 19) * 2 + (1 if pi % 2 == 0 else 0)     # alternate minimization on / off
